@@ -14,6 +14,8 @@ SCENARIOS = [
     ("windows_changed_reset", [("run", False, False), ("editW", 1)], (True, False)),
     ("windows_changed_plain", [("run", False, False), ("editW", 1)], (False, False)),                   # uninterrupted run is an error
     ("touch_genes_revise", [("run", True, True), ("touchG",)], (False, True)),
+    ("move_genes_plain", [("run", False, False), ("editG", 1)], (False, False)),       # same gene names: a stale overlap file would be accepted by the merge
+    ("move_TEs_revise", [("run", False, False), ("editT", 1)], (False, True)),
 ]
 
 
@@ -179,12 +181,17 @@ def run_family(chk, mode, props_file, rule):
     import random
     from concurrent.futures import ThreadPoolExecutor
     from . import pipefam
-    pipefam.standard_obligations(chk, props_file)
+    built = pipefam.standard_obligations(chk, props_file)
     r = chk.rng("interrupt")
     quick = chk.tier == "quick"
     nworlds = 2 if quick else 5
     per_scen = 22 if quick else 400
-    scen_idx = {0: [0, 1, 2, 6], 1: [3, 4, 5, 7]} if quick else {i: list(range(len(SCENARIOS))) for i in range(nworlds)}
+    scen_idx = {0: [0, 1, 2, 6, 9], 1: [3, 4, 5, 7, 8]} if quick else {i: list(range(len(SCENARIOS))) for i in range(nworlds)}
+    if quick and not built:
+        # a proof obligation or the translated cache decisions no longer check: widen the search for a failing crash point
+        chk.notes.append("obligations broken: every scenario in both worlds, 60 points per scenario")
+        per_scen = 60
+        scen_idx = {i: list(range(len(SCENARIOS))) for i in range(nworlds)}
     jobs, scen_recs, worlds = [], [], []
     try:
         for wi in range(nworlds):
@@ -211,9 +218,9 @@ def run_family(chk, mode, props_file, rule):
                         bykind.setdefault(p["target"]["kind"], []).append(p)
                     for l in bykind.values():
                         r.shuffle(l)
-                    pick = []
+                    pick = bykind.pop("replace", [])       # every rename: these are the boundaries between the crash states
                     while len(pick) < per_scen and any(bykind.values()):
-                        for k in ["csv", "replace"] + sorted(bykind):      # text caches and renames get a double share
+                        for k in ["csv"] + sorted(bykind):      # text caches get a double share
                             if bykind.get(k) and len(pick) < per_scen:
                                 pick.append(bykind[k].pop())
                     pts = pick
